@@ -20,8 +20,12 @@ ST = ("PASS", "FAIL", "SKIP")
 
 def gen_rules(rng, doc):
     """2-4 rule names; ~30% of files define one name twice with opposite `when` guards"""
-    o = gen.Opts(refs=False, types=False, calls=False, max_rules=4, max_lines=2, default=False)
+    o = gen.Opts(refs=False, types=False, calls=False, max_rules=4, max_lines=2, default=rng.random() < 0.4)
     f = gen.gen_file(rng, doc, o)
+    if o.default and not f["default"]:
+        o.default = False
+        o.whens = False
+        f["default"] = gen.gen_cnf(rng, doc, o, 0, {"refs": [], "vars": [], "prules": [], "allow_ref": False}, maxlines=2)
     names = [r["name"] for r in f["rules"]]
     if len(f["rules"]) >= 2 and rng.random() < 0.45:
         a = rng.randrange(len(f["rules"]))
@@ -32,7 +36,12 @@ def gen_rules(rng, doc):
         if rng.random() < 0.5:
             f["rules"][a]["when"] = gen.gen_cond(rng, doc, o, 0, env)
         f["rules"].insert(rng.randrange(len(f["rules"]) + 1), dup)
-    return gen.pfile(f), sorted(set(r["name"] for r in f["rules"]))
+    # file-level clauses form the rule `<rules file>/default` (`<stem>/default` in the --dir layout); canonical name here: "default"
+    return gen.pfile(f), sorted(set(r["name"] for r in f["rules"])) + (["default"] if f["default"] else [])
+
+
+def canon(n):
+    return "default" if isinstance(n, str) and n.endswith("/default") else n
 
 
 def validate_statuses(w, rtext, doc):
@@ -48,7 +57,7 @@ def validate_statuses(w, rtext, doc):
         return None, r
     m = {}
     for n, s in obs.tree_rule_statuses(tree):
-        m.setdefault(n, []).append(s)
+        m.setdefault(canon(n), []).append(s)
     return m, r
 
 
@@ -125,8 +134,15 @@ def kind_rel(rel):
 
 def check_one(ctx, rtext, names, docs, exps, tag):
     """exps: list (per case) of {rule: expected}"""
-    specs = [{"name": "case%d" % i, "input": d, "expectations": {"rules": e}} for i, (d, e) in enumerate(zip(docs, exps))]
-    ttext = json.dumps(specs)
+    def spell(e, layout):
+        out = {k: v for k, v in e.items() if k != "default"}
+        if "default" in e:
+            # -r/-t layout: the name is the rules path as given on the command line; --dir layout: the file stem
+            out["{S}/rr.guard/default" if layout == "files" else "rr/default"] = e["default"]
+        return out
+    ttexts = {layout: json.dumps([{"name": "case%d" % i, "input": d, "expectations": {"rules": spell(e, layout)}} for i, (d, e) in enumerate(zip(docs, exps))])
+              for layout in ("files", "dir")}
+    ttext = json.dumps([{"name": "case%d" % i, "input": d, "expectations": {"rules": e}} for i, (d, e) in enumerate(zip(docs, exps))])
     V = []
     for d in docs:
         m, r = validate_statuses(ctx.w, rtext, d)
@@ -155,7 +171,7 @@ def check_one(ctx, rtext, names, docs, exps, tag):
             if layout == "dir" and fmt in ("yaml",) and ctx.quick:
                 continue
             argv = ["test"] + (["-r", "{S}/rr.guard", "-t", "{S}/tests/rr_tests.json"] if layout == "files" else ["-d", "{S}"]) + ([] if fmt == "plain" else ["-o", fmt])
-            r = ctx.w.run({"k": "cli", "argv": argv, "files": fl})
+            r = ctx.w.run({"k": "cli", "argv": argv, "files": {"rr.guard": rtext, "tests/rr_tests.json": ttexts[layout]}, "subst_files": True})
             ctx.res.cases += 1
             cfg = "%s-%s" % (fmt, layout)
             c2 = dict(case, cfg=cfg)
@@ -179,6 +195,9 @@ def check_one(ctx, rtext, names, docs, exps, tag):
             except (ValueError, yaml.YAMLError, ET.ParseError, KeyError, IndexError, TypeError) as e:
                 ctx.violation("%s:malformed" % fmt, "output of test -o %s is malformed: %s" % (fmt, str(e)[:100]), c2)
                 continue
+            rel = {(k[0], canon(k[1])): v for k, v in rel.items()}
+            if "default" in names:
+                ctx.res.counts["default_rule_outcomes"] += sum(1 for k in rel if k[1] == "default")
             got = kind_rel(rel)
             ctx.res.distinct.add((cfg, tuple(sorted(set(got.values()))), r["code"]))
             for v in set(expected_rel.values()):
